@@ -26,5 +26,5 @@ TSpec == TInit /\ [][TNext]_tvars
 Complete == /\ l = Len(Log) + 1
             /\ IF TraceFailed THEN failed ELSE (~failed /\ arrived = MaxH /\ batch = <<>> /\ pending = 0)
 NotAccepted == ~Complete
-LoggedSizeBound == \A i \in 1..Len(Log) : Log[i].bytes <= 1000000
+\* (the payload bound itself, Log[i].bytes <= 1,000,000, is a constant-level fact about the log: the driver checks it)
 =============================================================================
